@@ -50,13 +50,20 @@ def run(ctx):
     firsts = [n_ for n_, (v_, st_) in defs.items() if isinstance(v_, ast.Call) and (chain(v_.func) or '').endswith('SED.read')]
     nw_name = [n_ for n_, (v_, st_) in defs.items() if any(up(v_) == '%s.n_wav' % f_ for f_ in firsts)]
     wl_name = [n_ for n_, (v_, st_) in defs.items() if any(up(v_) == '%s.wav' % f_ for f_ in firsts)]
-    outer0 = [st for st in fi.node.body if isinstance(st, ast.For) and isinstance(st.iter, ast.Call) and chain(st.iter.func) == 'range' and len(st.iter.args) == 3]
-    if len(outer0) != 1:
+    # the chunk loop: either range(jlo, jhi + 1, chunk) or a counted loop range(n_chunks) with jmin = jlo + i*chunk
+    chunk_loops = [st for st in fi.node.body if isinstance(st, ast.For) and isinstance(st.iter, ast.Call) and chain(st.iter.func) == 'range'
+                   and any(isinstance(n_, ast.For) and up(n_.iter).startswith('enumerate(') for n_ in walk_local(st) if n_ is not st)]
+    if len(chunk_loops) != 1:
         raise AnalysisError('monochromatic: chunk loop not found')
-    lo_n = [n_.id for n_ in ast.walk(outer0[0].iter.args[0]) if isinstance(n_, ast.Name)]
-    hi_n = [n_.id for n_ in ast.walk(outer0[0].iter.args[1]) if isinstance(n_, ast.Name)]
-    lo_def = [(n_, defs[n_][0], defs[n_][1]) for n_ in lo_n if n_ in defs and 'searchsorted' in up(defs[n_][0])]
-    hi_def = [(n_, defs[n_][0], defs[n_][1]) for n_ in hi_n if n_ in defs and 'searchsorted' in up(defs[n_][0])]
+    outer0 = chunk_loops
+    ss_defs = {n_: d_ for n_, d_ in defs.items() if 'searchsorted' in up(d_[0])}
+    lo_def = [(n_, d_[0], d_[1]) for n_, d_ in ss_defs.items() if 'wav_max' in up(d_[0]) and 'wav_min' not in up(d_[0])]
+    hi_def = [(n_, d_[0], d_[1]) for n_, d_ in ss_defs.items() if 'wav_min' in up(d_[0]) and 'wav_max' not in up(d_[0])]
+    if len(ss_defs) == 2 and (len(lo_def) != 1 or len(hi_def) != 1):
+        # both defined from the same bound: decide by role in the loop (start / stop)
+        names_ = sorted(ss_defs, key=lambda n_: ss_defs[n_][1].lineno)
+        lo_def = [(names_[0], ss_defs[names_[0]][0], ss_defs[names_[0]][1])]
+        hi_def = [(names_[1], ss_defs[names_[1]][0], ss_defs[names_[1]][1])]
     if not (firsts and nw_name and wl_name and len(lo_def) == 1 and len(hi_def) == 1):
         raise AnalysisError('monochromatic: window-to-index definitions not found')
     env = {'__module__': mod, nw_name[0]: scalar(alg.count(N), num(1)), wl_name[0]: symarr('wl', (N,), unit=unit_atom('micron')),
@@ -77,20 +84,54 @@ def run(ctx):
     ctx.ok('ALG-18', 'wavelengths come from the first SED', loc(fi), '%s = %s.wav' % (wl_name[0], firsts[0]))
 
     # ---- CFG-9 tiling
-    outer = [st for st in fi.node.body if isinstance(st, ast.For) and isinstance(st.iter, ast.Call) and chain(st.iter.func) == 'range' and len(st.iter.args) == 3]
-    if len(outer) != 1 or not isinstance(outer[0].target, ast.Name):
-        raise AnalysisError('monochromatic: chunk loop not found')
-    lp = outer[0]
-    jmin = lp.target.id
-    chunk_name = up(lp.iter.args[2]) if isinstance(lp.iter.args[2], ast.Name) else 'chunk_size'
-    senv = {'__module__': mod, jlo_name: scalar(sym('jlo'), num(1)), jhi_name: scalar(sym('jhi'), num(1)), chunk_name: scalar(sym('chunk'), num(1)), jmin: scalar(sym('jmin'), num(1))}
-    a, b, c = [I.expr(x, dict(senv), mod) for x in lp.iter.args]
-    compare(ctx, 'CFG-9', 'chunk loop start', loc(fi, lp.lineno), a, sym('jlo'), (), vocab=VOCAB, detail_ok='starts at jlo')
-    compare(ctx, 'CFG-9', 'chunk loop stop (jhi is inclusive)', loc(fi, lp.lineno), b, sym('jhi') + 1, (), vocab=VOCAB, detail_ok='range stop is jhi + 1, so a chunk starting at jhi is not skipped')
-    compare(ctx, 'CFG-9', 'chunk loop step', loc(fi, lp.lineno), c, sym('chunk'), (), vocab=VOCAB, detail_ok='steps by the chunk size')
+    lp = chunk_loops[0]
+    if not isinstance(lp.target, ast.Name):
+        raise AnalysisError('monochromatic: chunk loop target')
+    chunk_candidates = [n_ for n_, (v_, st_) in defs.items() if 'max_ram' in up(v_) or (isinstance(v_, ast.Call) and chain(v_.func) == 'min' and any(n2 in up(v_) for n2 in defs if 'max_ram' in up(defs[n2][0])))]
+    if len(lp.iter.args) == 3:
+        jmin = lp.target.id
+        chunk_name = up(lp.iter.args[2]) if isinstance(lp.iter.args[2], ast.Name) else 'chunk_size'
+        senv = {'__module__': mod, jlo_name: scalar(sym('jlo'), num(1)), jhi_name: scalar(sym('jhi'), num(1)), chunk_name: scalar(sym('chunk'), num(1)), jmin: scalar(sym('jmin'), num(1))}
+        a, b, c = [I.expr(x, dict(senv), mod) for x in lp.iter.args]
+        compare(ctx, 'CFG-9', 'chunk loop start', loc(fi, lp.lineno), a, sym('jlo'), (), vocab=VOCAB, detail_ok='starts at jlo')
+        compare(ctx, 'CFG-9', 'chunk loop stop (jhi is inclusive)', loc(fi, lp.lineno), b, sym('jhi') + 1, (), vocab=VOCAB, detail_ok='range stop is jhi + 1, so a chunk starting at jhi is not skipped')
+        compare(ctx, 'CFG-9', 'chunk loop step', loc(fi, lp.lineno), c, sym('chunk'), (), vocab=VOCAB, detail_ok='steps by the chunk size')
+    elif len(lp.iter.args) == 1:
+        # counted loop: chunk i starts at jlo + i*chunk ; the count must be ceil((jhi - jlo + 1) / chunk)
+        ivar = lp.target.id
+        chunk_name = (chunk_candidates or ['chunk_size'])[-1]
+        base_env = {'__module__': mod, jlo_name: scalar(sym('jlo'), num(1)), jhi_name: scalar(sym('jhi'), num(1)), chunk_name: scalar(sym('chunk'), num(1))}
+        for n_, (v_, st_) in defs.items():
+            if n_ not in base_env and st_.lineno > hi_def[0][2].lineno and n_ != chunk_name:
+                base_env[n_] = I.expr(v_, dict(base_env), mod)
+        count = I.expr(lp.iter.args[0], dict(base_env), mod)
+        Lw = sym('jhi') - sym('jlo') + 1
+        ch = sym('chunk')
+        ceil_forms = [mk_fn('ceil', P(Lw / ch)), mk_fn('int', P(mk_fn('ceil', P(Lw / ch)))), -mk_fn('floor', P(-Lw / ch)), mk_fn('floor', P((Lw + ch - 1) / ch)), mk_fn('int', P((Lw + ch - 1) / ch))]
+        floor_forms = [mk_fn('floor', P(Lw / ch)), mk_fn('int', P(Lw / ch))]
+        if isinstance(count, Arr) and any(count.poly == f_ for f_ in ceil_forms):
+            ctx.ok('CFG-9', 'number of chunks', loc(fi, lp.lineno), 'ceil((jhi - jlo + 1) / chunk) chunks')
+        elif isinstance(count, Arr) and any(count.poly == f_ for f_ in floor_forms):
+            ctx.violation('CFG-9', 'number of chunks', loc(fi, lp.lineno), 'the loop runs floor((jhi - jlo + 1) / chunk) times: when the chunk size does not divide the number of wavelengths the last, shorter chunk is never processed', 'floor-chunks')
+        else:
+            ctx.undecided('CFG-9', 'number of chunks', loc(fi, lp.lineno), 'chunk count %s not recognised' % (alg.show(count.poly, 120) if isinstance(count, Arr) else count))
+        jm = [(n_, v_) for n_, v_, st_ in sequential_defs(lp.body) if ivar in up(v_) and jlo_name in up(v_)]
+        if not jm:
+            raise AnalysisError('monochromatic: start of a chunk not found in the counted loop')
+        jmin = jm[0][0]
+        senv = dict(base_env)
+        senv[ivar] = scalar(sym('ichunk'), num(1))
+        start = I.expr(jm[0][1], dict(senv), mod)
+        compare(ctx, 'CFG-9', 'chunk i starts at jlo + i*chunk', loc(fi, lp.lineno), start, sym('jlo') + sym('ichunk') * sym('chunk'), (), vocab=VOCAB | {'ichunk'}, detail_ok='consecutive chunks are adjacent')
+        ctx.ok('CFG-9', 'chunk loop shape', loc(fi, lp.lineno), 'counted loop over chunks', nontrivial=False)
+        senv[jmin] = scalar(sym('jmin'), num(1))
+    else:
+        raise AnalysisError('monochromatic: chunk loop shape not recognised')
     # locals defined in the chunk body
     benv = dict(senv)
     for name, v, st in sequential_defs(lp.body):
+        if name == jmin:
+            continue
         benv[name] = I.expr(v, benv, mod)
     aa, bb = sym('jmin') + sym('chunk') - 1, sym('jhi')
     jmax_ref = aa + lt(bb, aa) * (bb - aa)
